@@ -51,6 +51,9 @@ pub fn replay(case: &J, lifts: &[Lift]) -> J {
         let s = Session::new();
         let items: Vec<String> = case["xs"].as_array().unwrap().iter().map(|x| mv::src(x, lift)).collect();
         let exp = expected_bits(&case["exp"], lift);
+        // a call that fails part-way through its arguments comes first: nothing of it may be left for the next call
+        let failing = s.eval(&format!("{}(7, 3, \"x\", 9)", f));
+        if failing.is_ok() { mism.push(json!({"src": format!("{}(7, 3, \"x\", 9)", f), "conv": "separate", "lift": lift.name(), "exp": "an error", "obs": "a value"})); }
         for (conv, src) in forms(f, &items) {
             let o = s.eval(&src);
             evals += 1;
@@ -84,20 +87,21 @@ pub fn record(seed: u64, n: usize) -> Vec<J> {
         let list = format!("[{}]", items.join(", "));
         match i % 3 {
             0 => {
-                // percentile over an increasing grid of integer p
-                let mut ps: Vec<i64> = vec![0, 100];
-                for _ in 0..r.below(9) { ps.push(r.range(0, 100)); }
+                // percentile over an increasing grid of p, in hundredths: whole p and fractional p (below 1 as well)
+                let mut ps: Vec<i64> = vec![0, 10000];
+                for _ in 0..r.below(9) { ps.push(match r.below(4) { 0 => r.range(1, 99), 1 => r.range(100, 9999), _ => r.range(0, 100) * 100 }); }
+                ps.extend([25, 50, 90, 100, 3750]);
                 ps.sort();
                 ps.dedup();
                 let rs: Vec<J> = ps.iter().map(|p| {
-                    match s.eval(&format!("percentile({}, {})", list, p)) {
+                    match s.eval(&format!("percentile({}, {})", list, *p as f64 / 100.0)) {
                         Outcome::Ok(v) => mv::project(&v, &s.heap.borrow(), lift),
                         Outcome::Err(_) => json!({"t":"err"}),
                         Outcome::ParseErr(m) => json!({"t":"parse","m":m}),
                         Outcome::Panic(m) => json!({"t":"panic","m":m}),
                     }
                 }).collect();
-                out.push(json!({"ev":"pct","xs":xs,"ps":ps,"rs":rs,"lift":lift.name(),"src":format!("percentile({}, ..)", list)}));
+                out.push(json!({"ev":"pct","xs":xs,"psx":ps,"rs":rs,"lift":lift.name(),"src":format!("percentile({}, ..)", list)}));
             }
             1 => {
                 let f = if forced.is_some() { "median" } else { *r.pick(&["min", "max", "median"]) };
